@@ -654,9 +654,69 @@ fn variants_from_reads(p: &mut Prng, base: &MemDesc, reads: &[(u64, bool)], ip: 
     v
 }
 
+
+/// `PtrAuthMask::from_max_known_address` on every power of two and its neighbours, 0, u64::MAX
+/// and random values: compared with the Lean model (`fromMaxKnown`), and judged directly - the
+/// mask must preserve every address up to its argument (the argument itself, its predecessor,
+/// half of it, 0, random smaller values).
+fn max_known_mask_grid(rep: &mut Report, p: &mut Prng) {
+    let mut args: Vec<u64> = vec![0, 1, 2, 3, u64::MAX, u64::MAX - 1];
+    for k in 0..64u32 {
+        let b = 1u64 << k;
+        args.extend_from_slice(&[b, b.wrapping_sub(1), b.wrapping_add(1), b | (b >> 1), b | p.below(b.max(1))]);
+    }
+    for _ in 0..2000 {
+        args.push(gen_u64(p));
+    }
+    let mut lines = Vec::new();
+    let mut impls = Vec::new();
+    for (i, a) in args.iter().enumerate() {
+        let got = catch(|| PtrAuthMask::from_max_known_address(*a).0);
+        let out = match got {
+            Err(loc) => {
+                rep.add_finding(Finding { props: vec!["C16".into(), "C09".into()], kind: "oracle".into(), key: "from-max-known-address-panics".into(), what: format!("from_max_known_address({a:#x}) panicked at {loc}"), case: format!("a={a:#x}"), impl_out: "panic".into(), model_out: String::new() });
+                "panic".to_string()
+            }
+            Ok(mask) => {
+                let mut xs = vec![*a, a.saturating_sub(1), a / 2, 0, 1.min(*a)];
+                for _ in 0..4 {
+                    xs.push(if *a == u64::MAX { gen_u64(p) } else { p.below(a + 1) });
+                }
+                if let Some(x) = xs.iter().find(|x| **x <= *a && (**x & mask) != **x) {
+                    rep.add_finding(Finding {
+                        props: vec!["C16".into()],
+                        kind: "oracle".into(),
+                        key: "mask-from-max-known-address-loses-an-address".into(),
+                        what: format!("the mask derived from the highest known address {a:#x} is {mask:#x}; stripping the address {x:#x} (which is not above {a:#x}) gives {:#x}", x & mask),
+                        case: format!("from_max_known_address({a:#x})"),
+                        impl_out: format!("mask={mask:#x}"),
+                        model_out: String::new(),
+                    });
+                }
+                format!("mask={}", hex(mask))
+            }
+        };
+        lines.push(format!("maxmask {i} a={}", hex(*a)));
+        impls.push(out);
+    }
+    let model = crate::model::run_model(&lines);
+    rep.cases += lines.len() as u64;
+    rep.compared_with_model += lines.len() as u64;
+    for ((l, i), m) in lines.iter().zip(impls.iter()).zip(model.iter()) {
+        if i != m {
+            rep.add_finding(Finding { props: vec!["C16".into()], kind: "correspondence".into(), key: "from-max-known-address".into(), what: "PtrAuthMask::from_max_known_address differs from the Lean model fromMaxKnown".into(), case: l.clone(), impl_out: i.clone(), model_out: m.clone() });
+        }
+    }
+    rep.count("from_max_known_address grid");
+}
+
 pub fn run(tier: &str, seed: u64) -> Report {
     let mut rep = Report::new("rule");
     let mut p = Prng::new(seed);
+    {
+        let mut pm = Prng::new(seed.wrapping_mul(0x9e37_79b9_7f4a_7c15).wrapping_add(3));
+        max_known_mask_grid(&mut rep, &mut pm);
+    }
     let n_base: u64 = if tier == "thorough" { 150_000 } else { 6_000 };
 
     let mut lines: Vec<String> = Vec::new();
